@@ -173,6 +173,10 @@ impl BinaryOperator {
                 }
             }
             Expression::Unary(_) => self.precedes_unary_expression(),
+            // a negative number is written with a leading `-`, which reads as a unary minus
+            Expression::Number(number) => {
+                self.precedes_unary_expression() && number.is_written_with_minus_sign()
+            }
             Expression::If(_) => true,
             _ => false,
         };
